@@ -95,6 +95,9 @@ impl Property for C04 {
             rng.urange(100, 1500)
         } else if rng.chance(1, 12) {
             0
+        } else if rng.chance(1, 40) {
+            // exact counts around a byte's and two bytes' worth of arguments
+            *rng.pick(&[255usize, 256, 257, 1023, 1024, 1025])
         } else {
             rng.small(1, 40)
         };
@@ -175,10 +178,10 @@ impl Property for C04 {
         let use_l = rng.chance(1, 3) && (!use_n || rng.chance(1, 6));
         let use_s = rng.chance(2, 5);
         if use_n {
-            sc.opts.push(Opt::N(*rng.pick(&[1, 1, 2, 2, 3, 5, 7, 100])));
+            sc.opts.push(Opt::N(*rng.pick(&[1, 1, 2, 2, 3, 5, 7, 100, 255, 256, 2_147_483_647, 4_294_967_296])));
         }
         if use_l {
-            sc.opts.push(Opt::L(*rng.pick(&[1, 1, 2, 3, 5])));
+            sc.opts.push(Opt::L(*rng.pick(&[1, 1, 2, 3, 5, 256, 2_147_483_647, 4_294_967_296])));
         }
         if use_s {
             let choices = [
